@@ -43,6 +43,19 @@ EmitProbe == PrintT(<<"EMIT", ToJson([
            cw2 |-> CW2, sum2 |-> OrderedSum(sx, sy, CW2, RW2), in2 |-> InWell(sx, sy, CW2, RW2),
            redesc |-> Redescriptions ])>>)
 
+\* C11: what the SVG of the state must draw: every placement (fill blue) and its 8 nearest
+\* lattice images (fill green), as the entries of matrix(a b c d e f) = (l11 l21 l12 l22 px py);
+\* positions multiplied by D*U*h, linear parts by h
+SvgUses == [k \in 1..N |-> [lin |-> Lin(k),
+                             at |-> { <<n, m, Pos(k, n, m)[1], Pos(k, n, m)[2]>> : n \in -1..1, m \in -1..1 }]]
+EmitSvg == PrintT(<<"EMIT", ToJson([
+           g |-> g, shape |-> sh.name,
+           sr |-> IF sh.name = "trimer" THEN sh.r ELSE 0,
+           sd |-> IF sh.name = "trimer" THEN sh.d ELSE 0,
+           U |-> U, D |-> D, ax |-> ax, bx |-> bx, by |-> by, sx |-> sx, sy |-> sy,
+           c |-> C, s |-> S, h |-> Hh, n |-> N, uses |-> SvgUses,
+           cells |-> { <<n, m, D * (n * ax + m * bx), D * m * by>> : n \in -1..1, m \in -1..1 } ])>>)
+
 \* placements only (cheap): used where the overlap verdict is not needed
 EmitPlacements == PrintT(<<"EMIT", ToJson([
            g |-> g, shape |-> sh.name,
